@@ -3,7 +3,11 @@ package mon
 import (
 	"bytes"
 	"crypto/sha256"
+	"errors"
 	"fmt"
+	"github.com/go-i2p/crypto/curve25519"
+	"github.com/go-i2p/crypto/ed25519"
+	"io"
 	"sync"
 	"time"
 
@@ -317,6 +321,64 @@ func runC07(c *core.Ctx) {
 	})
 
 	// HashData / HashReader
+	// identities whose keys the caller keeps in ONE table (adjacent windows of a single buffer, so each
+	// key slice has the following keys and more as spare capacity): serialising or hashing one
+	// identity leaves the table, and with it every sibling identity, as it was
+	c.Job("shared-key-table", c.N(300, 6000), func(i int, r *core.Rand) {
+		const N = 3
+		kcm := rm.KeyCert(7, 4, nil)
+		kc, ok, err := lib.BuildKeyCert(kcm)
+		if !ok || err != nil || kc == nil {
+			return
+		}
+		table := r.Bytes(32*N + 512)
+		sigTable := r.Bytes(32*N + 512)
+		orig := append([]byte{}, table...)
+		origSig := append([]byte{}, sigTable...)
+		var ds []*destination.Destination
+		var want [][]byte
+		for j := 0; j < N; j++ {
+			pad := r.Bytes(384 - 32 - 32)
+			pk := curve25519.Curve25519PublicKey(table[32*j : 32*j+32])
+			spk := ed25519.Ed25519PublicKey(sigTable[32*j : 32*j+32])
+			e := append(append(append(append([]byte{}, pk...), pad...), spk...), kcm.Encode()...)
+			kac, err := keys_and_cert.NewKeysAndCert(kc, pk, pad, spk)
+			if err != nil || kac == nil {
+				return
+			}
+			d, err := destination.NewDestination(kac)
+			if err != nil || d == nil {
+				return
+			}
+			ds = append(ds, d)
+			want = append(want, e)
+		}
+		c.Eval(1)
+		c.Nontrivial([]byte("shared-key-table"), want[0])
+		sh := gen.Shape{"sig": 7, "crypto": 4, "class": "keys are adjacent windows of one caller-owned table"}
+		for j := 0; j < N; j++ {
+			c.Call("Destination accessors (shared key table)", want[j], func() {
+				ds[j].Bytes()
+				ds[j].Hash()
+				ds[j].Base32Address()
+				ds[j].Base64()
+				ds[j].Equals(ds[(j+1)%N])
+			})
+			if !bytes.Equal(table, orig) || !bytes.Equal(sigTable, origSig) {
+				c.Violate("destination.Destination.Hash", "hash-not-sha256-of-bytes", sh, want[j], fmt.Sprintf("serialising / hashing identity %d of %d wrote into the caller's key table (behind the key it was given)", j, N))
+				return
+			}
+			for k := 0; k < N; k++ {
+				wh := sha256.Sum256(want[k])
+				if h, err := ds[k].Hash(); err != nil || [32]byte(h) != wh {
+					c.Violate("destination.Destination.Hash", "hash-not-sha256-of-bytes", sh, want[k], fmt.Sprintf("after identity %d was serialised and hashed, identity %d hashes to %x (SHA-256 of its bytes: %x, err %v)", j, k, h, wh, err))
+					return
+				}
+			}
+		}
+		c.Bucket("shared-key-table-ok")
+	})
+
 	// many identities hashed at the same time, each by its own goroutine: hash, address and bytes are
 	// functions of that identity's bytes whatever else the process is doing (scratch space shared
 	// between calls mixes identities up only when calls overlap)
@@ -395,5 +457,33 @@ func runC07(c *core.Ctx) {
 			c.Violate("data.HashReader", "hash-not-sha256-of-bytes", nil, in, "HashReader differs from SHA-256")
 		}
 		c.Nontrivial([]byte("hashdata"), in)
+		// a stream that fails half way leaves nothing behind: the next hashes (of plain data, of a
+		// stream, of an identity) are those of their own input
+		if i%3 == 0 {
+			cut := r.Pick(len(in) + 1)
+			_, ferr := data.HashReader(io.MultiReader(bytes.NewReader(in[:cut]), failingReader{}))
+			if ferr == nil {
+				c.Violate("data.HashReader", "hash-not-sha256-of-bytes", gen.Shape{"class": "reader fails after some bytes"}, in[:cut], "a reader that failed produced a hash and no error")
+			}
+			if h := data.HashData(in); [32]byte(h) != want {
+				c.Violate("data.HashData", "hash-not-sha256-of-bytes", gen.Shape{"class": "after a failed HashReader"}, in, "HashData after a failed HashReader differs from SHA-256 of its own input")
+			}
+			if h, err := data.HashReader(bytes.NewReader(in)); err != nil || [32]byte(h) != want {
+				c.Violate("data.HashReader", "hash-not-sha256-of-bytes", gen.Shape{"class": "after a failed HashReader"}, in, "HashReader after a failed HashReader differs from SHA-256 of its own input")
+			}
+			m, sh := gen.KACOf(r, 7, 4)
+			b := m.Encode()
+			data.HashReader(io.MultiReader(bytes.NewReader(in[:cut]), failingReader{}))
+			if d, _, err := destination.ReadDestination(b); err == nil {
+				if h, err := d.Hash(); err != nil || [32]byte(h) != sha256.Sum256(b) {
+					c.Violate("destination.Destination.Hash", "hash-not-sha256-of-bytes", sh, b, "identity hashed after a failed HashReader")
+				}
+			}
+		}
 	})
 }
+
+// failingReader fails on every Read.
+type failingReader struct{}
+
+func (failingReader) Read([]byte) (int, error) { return 0, errors.New("verif: injected read failure") }
